@@ -266,10 +266,12 @@ def nameEq (a b : Name) : Bool := cmpOrder a b == 0
 def nameHash (n : Name) : Nat :=
   n.foldl (fun h l => (lowerLabel l).foldl (fun h c => h + h * 8 + c) h) 0
 
-/-- Python's `labels[: -k]`: the bound `-0` is `0`, so `k = 0` yields the empty tuple, not the whole one. -/
-def sliceToNeg (n : Name) (k : Nat) : Name := if k = 0 then [] else n.take (n.length - k)
+/-- `self[: len(self) - k]` (the repaired slice of `Name.relativize`; before the `fix:` commit it was
+`self[: -k]`, whose bound `-0` is `0`, so `k = 0` gave the empty tuple).  The two-branch shape is kept
+so that proofs which case on `k = 0` keep working; both branches are the same function of `k`. -/
+def sliceToNeg (n : Name) (k : Nat) : Name := if k = 0 then n.take (n.length - 0) else n.take (n.length - k)
 
-/-- `Name(self[: -len(origin)])` when `self.is_subdomain(origin)` (so an *empty* origin gives the empty name). -/
+/-- `Name(self[: len(self) - len(origin)])` when `self.is_subdomain(origin)`. -/
 def relativize (n origin : Name) : Except NameErr Name :=
   if isSubdomain n origin then validate (sliceToNeg n origin.length) else .ok n
 
